@@ -113,7 +113,7 @@ def explore(res, scale=1, seed=None):
         "sequences of 2-3 blocks with changing schemas against the same targets, altered blocks (cuts, custom-serialization "
         "flag, byte edits), nested adoption (Array / Nullable / LowCardinality / Map, also in each other, around Enum, DateTime, "
         "DateTime64 leaves; 2-3 blocks differing in leaf parameters only against targets built blank or with other parameters; "
-        "Map sides containing commas), every ordered pair of Tuple / Map types of different arity, and failed-then-well-formed "
+        "Map sides containing commas; Tuple, named Tuple and Tuple in Tuple around such leaves), every ordered pair of Tuple / Map types of different arity (also with adopting elements), and failed-then-well-formed "
         "block sequences (cut / altered / foreign-schema block, then blocks of the targets' own schema). After a failed bind "
         "every target is compared with the model as it is - the failing one with its half-decoded column - together with "
         "Rows() and whether Row(i) returns for every i below it. A case is non-trivial when the implementation produced a "
@@ -124,7 +124,7 @@ def explore(res, scale=1, seed=None):
         "the column decoders are those of model/Columns.v (C01); what a decoder leaves behind when it fails is model/DecPart.v, one case per DecodeColumn of /repo/proto and per build (ColUInt8 has the pure-Go decoder in both builds; a FixedString of size 64/128/256/512 is taken to be the generated array column, any other size ColFixedStr{Size}); hidden state that Reset does not clear (ColLowCardinality.key, slice capacities) is not modelled: the key is printed 0 while the column has no values and no keys, and Row(i) of a ColFixedStr below a wrapper (which slices within capacity) is not compared",
         "a case in which a corrupted count made a decoder allocate more than 200000 elements is judged by the oracle only (not dumped, not run through the model)",
         "a typed target is identified by its Type() string and element width: ColDateTime / ColDateTime64 / ColInterval are recognised by their names (Alias/Wrap columns are outside the modelled set)",
-        "ColTuple as a target hands the whole Tuple(...) string to every inferable element (mirrored, not repaired: such tuples reject their own type)",
+        "ColTuple as a target hands element i the i-th top-level argument of Tuple(...) and refuses a type with another number of arguments; ColNamed strips '<Name> ' (repaired by the C18y extension and mirrored; ColTuple is not a ColumnOf[T], so a tuple cannot stand below Array / Nullable / Map: tuples are top-level targets or elements of tuples)",
         "after a failed bind the library leaves a half-decoded Nullable / Array / Map / Point / Tuple / LowCardinality target whose Rows() exceeds what Row(i) can return (Row panics): modelled and compared, stated as failing_target_consistent_refuted, not reported as a violation",
     ]
 
